@@ -4,6 +4,10 @@ from __future__ import annotations
 import io
 import itertools
 import json
+import os
+import pathlib
+import shutil
+import tempfile
 
 import adapter
 import core
@@ -184,6 +188,14 @@ def names(tree):
 
 
 def run(ctx):
+    tmpdir = tempfile.mkdtemp(prefix="nutree_verif_c12_")
+    try:
+        return run_in(ctx, tmpdir)
+    finally:
+        shutil.rmtree(tmpdir, ignore_errors=True)
+
+
+def run_in(ctx, tmpdir):
     out = core.Outcome(
         rule="writing side: trees and options as C05 (rotating subset) - the parsed output of save() must satisfy the documented layout (header, pre-order, "
         "1-based parent index < own index, repeated occurrence with equal kind stored as the first occurrence's index and nothing else, keys/values "
@@ -224,12 +236,25 @@ def run(ctx):
                 kw["mapper"] = m.ser
             case = dict(side="write", cfg=cfg, spec=spec, key_map=km_name, value_map=vm_name)
             doc = None
+            # target kind rotates: open stream, str path, pathlib.Path, compressed path (the layout is the same for all)
+            target = ["stream", "path", "pathlib", "zip"][next(counter) % 4]
+            case["target"] = target
+            out.dist["target:" + target] += 1
             try:
-                tree.save(fp, meta=dict(meta), key_map=key_map, value_map=value_map, **kw)
+                if target == "stream":
+                    tree.save(fp, meta=dict(meta), key_map=key_map, value_map=value_map, **kw)
+                    doc = json.loads(fp.getvalue())
+                else:
+                    from props.c05 import read_doc
+
+                    fpath = os.path.join(tmpdir, f"w{next(counter)}.nutree")
+                    tree.save(pathlib.Path(fpath) if target == "pathlib" else fpath, meta=dict(meta), key_map=key_map, value_map=value_map,
+                              **({"compression": True} if target == "zip" else {}), **kw)
+                    doc = read_doc(fpath, True)
+                    os.unlink(fpath)
             except Exception as e:  # noqa
                 out.fail(case, f"save raised {e!r}")
                 continue
-            doc = json.loads(fp.getvalue())
             mf = {}
             for n in tree:
                 if not isinstance(n.data, str) and kw:
@@ -260,7 +285,7 @@ def run(ctx):
         if k % 4 == 3:
             vm = {"type": ["int", "tuple", "Item", "EqObj"]}
             if typed:
-                vm["kind"] = ["a", "b", "child"]
+                vm["kind"] = ["a", "b", "child", "c", "d"]
         doc = encode(desc, typed, km, vm, {"who": "independent"})
         cls = TypedTree if typed else Tree
         case = dict(side="read", typed=typed, doc=doc)
